@@ -186,8 +186,38 @@ func modules() []*module {
 // fingerprint renders every field of a rule except its ID (struct or pointer to struct)
 // canonically; two rules have the same fingerprint iff all their other fields are equal (maps:
 // sorted entries with the dynamic type of every key).
+// enforcementForm: the rule managers keep the loaded rule object when a rule that is equal for
+// enforcement purposes is reloaded (flow/circuitbreaker isEqualsTo, hotspot Equals); those
+// equalities ignore the ID and the fields that do not matter for the rule's strategy. "The
+// payload's valid rules are in force" is therefore observed modulo these fields; the wire cases
+// compare every field at the parser's output.
+func enforcementForm(x interface{}) interface{} {
+	switch r := x.(type) {
+	case *hotspot.Rule:
+		c := *r
+		switch c.ControlBehavior {
+		case hotspot.Reject:
+			c.MaxQueueingTimeMs = 0
+		case hotspot.Throttling:
+			c.BurstCount = 0
+		}
+		return &c
+	case hotspot.Rule:
+		return enforcementForm(&r)
+	case *cb.Rule:
+		c := *r
+		if c.Strategy == cb.ErrorRatio || c.Strategy == cb.ErrorCount {
+			c.MaxAllowedRtMs = 0
+		}
+		return &c
+	case cb.Rule:
+		return enforcementForm(&r)
+	}
+	return x
+}
+
 func fingerprint(x interface{}) string {
-	rv := reflect.ValueOf(x)
+	rv := reflect.ValueOf(enforcementForm(x))
 	for rv.Kind() == reflect.Ptr {
 		rv = rv.Elem()
 	}
